@@ -448,7 +448,7 @@ def big_source(rng, tier, weakly, cinf):
         sig, conds = corpus.union_base(rng, parts=rng.randint(2, 4), want='strong')
         return sig, conds, 'union'
     if r < 0.4 and not weakly:
-        files = [f for f in corpus.random_large(40 if tier == 'quick' else 100) if f[0] >= 8]
+        files = [f for f in corpus.random_large(40 if tier == 'quick' else 80) if f[0] >= 8]
         a, c, i, path = files[rng.randrange(len(files))]
         _, sig, conds = corpus.load(path)
         return sig, conds, path.split('/examples/')[-1]
@@ -506,6 +506,9 @@ def run_big_case(case, prop, configs, weakly):
     parallel = rng.random() < 0.05
     for (system, p) in configs:
         cname = impl.cfg_name(system, p)
+        if p == 'z3' and len(conds) > 50:
+            bump('large_base_z3_backend_skipped_for_cost')       # minutes per batch; the rc2 back-end is judged
+            continue
         try:
             df = impl.ask(impl.mk_bb(sig, conds, keys=keys), system, p, impl.mk_queries(qs), weakly=weakly,
                           **({'multi_inference': True} if parallel else {}))
